@@ -552,6 +552,14 @@ class Env:
                 c = self.latest()
                 if c is not None and not c.conn_lost:
                     c.peer_send(bytes.fromhex(op[1]))
+            elif k == "peerecho":
+                # the peer returns everything the client has written on this connection, one bit (op[1]) damaged on the way
+                c = self.latest()
+                if c is not None and not c.conn_lost:
+                    data = bytearray(getattr(c, "written_all", b""))
+                    if len(data) > op[1] // 8:
+                        data[op[1] // 8] ^= 1 << (op[1] % 8)
+                        c.peer_send(bytes(data))
             elif k == "subraise":
                 if op[1] == "conn":
                     self.raise_conn_sub = bool(op[2])
